@@ -660,18 +660,60 @@ func (s *c13Sess) poll() string {
 	return s.drainClient()
 }
 
+// clientWrite is client.Write with a logical bound: on this loss-free network every chunk is acknowledged by the
+// exchange that carries it, so a Write that is still exchanging messages after 1000 + 50 per chunk exchanges will
+// never be acknowledged (the client's send loop spins for ever in that case; closing the communicator ends it).
+func (s *c13Sess) clientWrite(buf []byte) string {
+	type wr struct {
+		n   int
+		err error
+	}
+	res := make(chan wr, 1)
+	start := s.comm.Stats().Exchanges
+	frag := int64(s.cfg.UpFrag)
+	if frag < 1 {
+		frag = 1
+	}
+	bound := 1000 + 50*(int64(len(buf))/frag+1)
+	go func() { n, err := s.client.Write(buf); res <- wr{n, err} }()
+	t0 := time.Now()
+	tick := time.NewTicker(time.Millisecond)
+	defer tick.Stop()
+	for {
+		select {
+		case r := <-res:
+			if r.err != nil {
+				return "tunnel:" + c13ErrName(r.err)
+			}
+			if r.n != len(buf) {
+				return "c2s:short-write"
+			}
+			return ""
+		case <-tick.C:
+		}
+		if s.comm.Stats().Exchanges-start > bound {
+			s.comm.Close()
+			select {
+			case <-res:
+			case <-time.After(10 * time.Second):
+			}
+			return "c2s:never-acknowledged"
+		}
+		if time.Since(t0) > 60*time.Second {
+			s.comm.Close()
+			return "inconclusive:client-write-blocked-without-exchanging-messages"
+		}
+	}
+}
+
 // finish lets the client write nUp keyed bytes, pumps until the pending downstream write is delivered and
 // acknowledged, and verifies both directions. "" = everything exact.
 func (s *c13Sess) finish(nUp int) string {
 	if nUp > 0 {
 		buf := c13Keyed(s.keyUp, s.upSent, nUp)
 		s.upSent += int64(nUp)
-		k, err := s.client.Write(buf)
-		if err != nil {
-			return "tunnel:" + c13ErrName(err)
-		}
-		if k != nUp {
-			return "c2s:short-write"
+		if p := s.clientWrite(buf); p != "" {
+			return p
 		}
 		if p := s.drainClient(); p != "" {
 			return p
